@@ -3,7 +3,7 @@
 // the derives PartialEq/Eq/PartialOrd/Ord of GUID (the BTreeMap/BTreeSet key of unit ack_waiter).
 // Equality is structural (all bytes); the derived order is lexicographic (prefix bytes, entity
 // key, entity kind) — its shape is irrelevant to C20 (only set membership is used), so it is an
-// uninterpreted total order here and the exec comparison bodies are assumed (external_body).
+// uninterpreted total order here and the exec comparison bodies are assumed, not proved.
 // ---------------------------------------------------------------------------------------------
 @@extract struct src/structure/guid.rs GuidPrefix derive=Clone,Copy
 @@extract struct src/structure/guid.rs EntityKind derive=Clone,Copy
